@@ -248,7 +248,7 @@ var (
 // defect groups: at most one defect per group, so that two defects can never cancel each other
 var c02S2SDefects = map[string][]string{
 	"aud":        {"aud_wrong", "aud_absent", "aud_near_miss", "aud_near_miss", "aud_equivalent", "aud_array_contains"},
-	"validity":   {"validity_long", "validity_no_exp", "validity_stale"},
+	"validity":   {"validity_long", "validity_long", "validity_long", "validity_no_exp", "validity_stale"},
 	"nonce":      {"nonce_missing", "nonce_reused"},
 	"subject":    {"signer_not_subject", "foreign_cred_in_vp", "mixed_subjects", "mixed_subjects_via_empty_vp"},
 	"definition": {"foreign_definition", "unfulfilled", "forged_map", "scope_unknown", "scope_other", "scope_near_miss", "scope_near_miss", "nothing_presented", "nothing_presented"},
